@@ -211,14 +211,87 @@ func checkC08(w *World, r *Report) {
 	}
 	nDisj := 0
 	assembled := map[string]bool{}
+	takesToken := func(fd *ast.FuncDecl) bool {
+		obj, ok := w.Info.Defs[fd.Name].(*types.Func)
+		if !ok {
+			return false
+		}
+		ps := obj.Type().(*types.Signature).Params()
+		for i := 0; i < ps.Len(); i++ {
+			if isNamed(ps.At(i).Type(), twigPath, "Token") {
+				return true
+			}
+		}
+		return false
+	}
+	// recognition set: compare the collected words with the table's first words
+	checkWords := func(fname string, words map[string]bool, at ast.Node) {
+		nOps := 0
+		for wd := range words {
+			if firstWords[wd] {
+				nOps++
+			}
+		}
+		if nOps < 3 {
+			return // not an operator-recognition set
+		}
+		nDisj++
+		var missing, extra []string
+		for wd := range firstWords {
+			if !words[wd] {
+				missing = append(missing, wd)
+			}
+		}
+		for wd := range words {
+			if !firstWords[wd] {
+				extra = append(extra, wd)
+			}
+		}
+		sort.Strings(missing)
+		sort.Strings(extra)
+		construct := "word operators recognised as binary operators"
+		if len(missing)+len(extra) == 0 {
+			r.ok("R08.1", fname, construct, w.pos(at), "exactly the first words of the table's word operators", true)
+		} else {
+			r.bad("R08.1", fname, construct, w.pos(at), fmt.Sprintf("the parser's operator test and the precedence table disagree: missing %v, extra %v — an expression using such an operator parses differently here", missing, extra))
+		}
+	}
 	for _, fd := range w.sortedDecls() {
-		if !w.parserSide(fd) {
+		if fd.Body == nil || !(w.parserSide(fd) || takesToken(fd)) {
 			continue
 		}
 		fname := w.declName(fd)
 		seenTop := map[ast.Node]bool{}
 		ast.Inspect(fd.Body, func(n ast.Node) bool {
 			switch x := n.(type) {
+			case *ast.CaseClause:
+				// switch tok.Value { case "and", "or", …: } — the switch form of the disjunction
+				sw, ok := w.parents[w.parents[x]].(*ast.SwitchStmt)
+				if !ok || sw.Tag == nil {
+					return true
+				}
+				if sel, ok := ast.Unparen(sw.Tag).(*ast.SelectorExpr); !ok || sel.Sel.Name != "Value" {
+					return true
+				}
+				words := map[string]bool{}
+				for _, e := range x.List {
+					if tv := w.Info.Types[e]; tv.Value != nil && tv.Value.Kind() == constant.String {
+						words[constant.StringVal(tv.Value)] = true
+					}
+				}
+				checkWords(fname, words, x)
+			case *ast.ReturnStmt:
+				for _, res := range x.Results {
+					if tv := w.Info.Types[res]; tv.Value != nil && tv.Value.Kind() == constant.String {
+						s := constant.StringVal(tv.Value)
+						if strings.Contains(s, " ") && isWordOp(s) && len(strings.Fields(s)) == 2 {
+							assembled[s] = true
+							if !multi[s] {
+								r.bad("R08.1", fname, fmt.Sprintf("assembled operator %q", s), w.pos(x), "the parser assembles a multi-word operator that has no precedence entry")
+							}
+						}
+					}
+				}
 			case *ast.BinaryExpr:
 				if x.Op != token.LOR || seenTop[x] {
 					return true
@@ -261,35 +334,7 @@ func checkC08(w *World, r *Report) {
 					}
 				}
 				collect(top.(ast.Expr))
-				nOps := 0
-				for wd := range words {
-					if firstWords[wd] {
-						nOps++
-					}
-				}
-				if nOps < 3 {
-					return true // not an operator-recognition disjunction
-				}
-				nDisj++
-				var missing, extra []string
-				for wd := range firstWords {
-					if !words[wd] {
-						missing = append(missing, wd)
-					}
-				}
-				for wd := range words {
-					if !firstWords[wd] {
-						extra = append(extra, wd)
-					}
-				}
-				sort.Strings(missing)
-				sort.Strings(extra)
-				construct := "word operators recognised as binary operators"
-				if len(missing)+len(extra) == 0 {
-					r.ok("R08.1", fname, construct, w.pos(top), "exactly the first words of the table's word operators", true)
-				} else {
-					r.bad("R08.1", fname, construct, w.pos(top), fmt.Sprintf("the parser's operator test and the precedence table disagree: missing %v, extra %v — an expression using such an operator parses differently here", missing, extra))
-				}
+				checkWords(fname, words, top)
 			case *ast.AssignStmt:
 				for i, rhs := range x.Rhs {
 					if tv := w.Info.Types[rhs]; tv.Value != nil && tv.Value.Kind() == constant.String && i < len(x.Lhs) {
